@@ -93,7 +93,7 @@ func (nc NoCallsIn) Check(r *Run) {
 		}
 		info := f.Info()
 		var bad *ast.CallExpr
-		ast.Inspect(f.Body(), func(x ast.Node) bool {
+		InspectBody(f, func(x ast.Node) bool {
 			if call, ok := x.(*ast.CallExpr); ok && bad == nil && forb.Has(Callee(info, call)) {
 				bad = call
 			}
@@ -130,7 +130,7 @@ func (nd NoDroppedError) Check(r *Run) {
 		for _, f := range r.W.AllFuncs(pkg) {
 			info := f.Info()
 			occ := 0
-			ast.Inspect(f.Body(), func(x ast.Node) bool {
+			InspectBody(f, func(x ast.Node) bool {
 				var call *ast.CallExpr
 				dropped := false
 				switch s := x.(type) {
@@ -198,7 +198,7 @@ func (ac AnyComparison) Check(r *Run) {
 	var near []string
 	found := false
 	var pos token.Pos
-	ast.Inspect(f.Body(), func(x ast.Node) bool {
+	InspectBody(f, func(x ast.Node) bool {
 		b, ok := x.(*ast.BinaryExpr)
 		if !ok || found {
 			return true
@@ -250,7 +250,7 @@ func (sb SameBatchArg) Check(r *Run) {
 	okAll := true
 	var firstBad ast.Node
 	var writeRecv types.Object
-	ast.Inspect(f.Body(), func(x ast.Node) bool {
+	InspectBody(f, func(x ast.Node) bool {
 		call, ok := x.(*ast.CallExpr)
 		if !ok {
 			return true
